@@ -2273,6 +2273,60 @@ def run_argdef_oracle(ck):
     ck.cov["argdef_oracle"] = {"cases": n}
 
 
+def run_inits(ck, q):
+    """Round 10: programs with many initializers / argument defaults. Model-free oracle on every case (public
+    `spox.build` + own wire decoder), and `InitTable.emit` next to the real `graph.initializer` (driver op `inits`)."""
+    import sys
+
+    from harness import lib_c10inits as LI
+
+    H = sys.modules[__name__]
+    n = 120 if ck.thorough else 40
+    cases = [LI.gen_case(H, ck.rng, big=(i % 10 == 9)) for i in range(n)]
+    reqs, raws = [], []
+    dist = {"tensors": 0, "programs": n, "with_defaults": 0, "same_object_twice": 0, "var_used_twice": 0, "max_initializers": 0, "dtypes": {}}
+    for case in cases:
+        ck.count(("inits", len(case["args"]), len(case["inits"])))
+        try:
+            probs, parts, raw, names = LI.run_case(H, case)
+        except Exception as e:  # noqa: BLE001
+            UNOBSERVABLE.setdefault("multi-initializer oracle", f"{type(e).__name__}: {e}"[:200])
+            continue
+        for key, what in probs:
+            ck.failure(f"inits:{key}", f"{len(case['inits'])} initializers, {len(case['args'])} arguments: {what}", case)
+        if parts is None:
+            continue
+        dist["tensors"] += len(raw)
+        dist["max_initializers"] = max(dist["max_initializers"], len(raw))
+        dist["with_defaults"] += any(a["default"] for a in case["args"])
+        dist["same_object_twice"] += any(it["same_as"] is not None for it in case["inits"])
+        dist["var_used_twice"] += len({tuple(u) for u in case["uses"]}) < len(case["uses"])
+        for t in parts["initializers"]:
+            dist["dtypes"][t.get("dtype")] = dist["dtypes"].get(t.get("dtype"), 0) + 1
+        try:
+            reqs.append(LI.model_request(H, case, parts, raw, names, q))
+            raws.append(raw)
+        except Exception as e:  # noqa: BLE001
+            ck.broken("correspondence", "C10 initializer table not observable", f"{type(e).__name__}: {e}"[:200])
+    mism = 0
+    if reqs:
+        outs = ck.driver().ask_many("C10", reqs)
+        for rq, m, raw in zip(reqs, outs, raws):
+            bad = LI.compare(m, raw)
+            if bad:
+                mism += 1
+                if mism <= 3:
+                    ck.broken("correspondence", "C10 InitTable.emit vs graph.initializer of the built model", bad)
+    if LI.ORDER_NOTES:
+        ck.notes.append(f"graph.initializer order differs from the model's (arguments first, then visiting order) in {len(LI.ORDER_NOTES)} programs; "
+                        "compared by name (the order is not part of the property; `initializers_emitted_exact`'s order clause then does not describe this tree)")
+        dist["order_differs"] = len(LI.ORDER_NOTES)
+        LI.ORDER_NOTES.clear()
+    dist["mismatches"] = mism
+    dist["compared_programs"] = len(reqs)
+    ck.cov["initializer_table"] = dist
+
+
 def run_ref_oracle(ck):
     """Attributes of every kind referenced (`_Ref`) inside a user-defined Function: call node and function body of the
     built model (harness/lib_c10fun.py)."""
@@ -2522,6 +2576,11 @@ def run(ck: core.Check):
     except Exception as e:  # noqa: BLE001
         ck.broken("correspondence", "C10 TYPE_PROTO attribute oracle not runnable", f"{type(e).__name__}: {e}"[:300])
     try:
+        run_inits(ck, q)
+        ck.log("initializer-table oracle + correspondence done")
+    except Exception as e:  # noqa: BLE001
+        ck.broken("correspondence", "C10 initializer-table oracle not runnable", f"{type(e).__name__}: {e}"[:300])
+    try:
         run_ref_oracle(ck)
     except Exception as e:  # noqa: BLE001
         ck.broken("correspondence", "C10 attribute-reference oracle not runnable", f"{type(e).__name__}: {e}"[:300])
@@ -2637,6 +2696,15 @@ def replay(ck: core.Check, doc) -> bool:
         for k, w in probs:
             print(f"{k}: {w}")
         return any(k != "unobservable" for k, _ in probs)
+    if kind == "inits":
+        import sys
+
+        from harness import lib_c10inits as LI
+
+        probs = LI.run_case(sys.modules[__name__], case)[0]
+        for k, w in probs:
+            print(f"{k}: {w}")
+        return bool(probs)
     if kind == "attr_site":
         from harness import lib_c10sites as S
         from translator import c10_attrsites
